@@ -9,10 +9,10 @@ from .recipes import Cast, TEMPLATES, add_step, eager_step, containers_of
 
 PROPERTY = 'C08'
 BOUNDS = ("Recipe programs of length <= 2 (quick: all 1-step, all 2-step) / <= 3 (thorough: plus a seeded sample of 500 "
-          "3-step programs) over 21 step templates on a fixed cast: stock A (water+NaCl, symbolic amounts), empty 5 mL "
+          "3-step programs) over 22 step templates on a fixed cast: stock A (water+NaCl, symbolic amounts), empty 5 mL "
           "container B, 2x2 plate P with symbolic water per well; templates: transfer A->B, A->P[1,:], P[:,1]->B, "
           "P[1,1]->P[2,:], P[1,:]->P[2,:], A->C, C->B, A->P[:, :][1:2, 0:1] and P[1:2, 1:2][0:1, 1:2]->B (slices of slices); remove water from B / P[1,:] / P; fill_to B / P / P[1,:]; dilute "
-          "A; create_container C; create_solution in water / with container A as solvent / with the recipe-created C "
+          "A (plain and with new_name); create_container C; create_solution in water / with container A as solvent / with the recipe-created C "
           "as solvent; create_solution_from A. Every quantity, target and concentration in every step is symbolic; "
           "the first step is wrapped in a stage. Oracle: an eager interpreter threading a name->object map through "
           "Container/Plate static operations. Lite rounding model.")
